@@ -45,6 +45,9 @@ VARIANTS = {
     # partial user properties on both
     'C': dict(ads='c02-ads-partial', T=300.0, ads_props={'molar_mass': 30.0}, mat=dict(density=2.0),
               known_c={'M': 30.0}, inits=[INIT_A, ('absolute', 'torr', 'fraction', None, 'mass', 'kg', 'K')]),
+    # a shipped adsorbate whose STORED molar mass (34.03) disagrees with its backend (52.02): every route must use one source
+    'D': dict(ads='difluoromethane', T=250.0, ads_props=None, mat=dict(density=2.0, molar_mass=100.0), known_c='backend',
+              inits=[INIT_A, ('absolute', 'kPa', 'mass', 'mg', 'mass', 'g', 'K'), ('relative', None, 'volume_gas', 'cm3', 'volume', 'cm3', 'K')]),
     # super-critical adsorbate with a backend: relative pressure and condensed-phase volumes are impossible
     'E': dict(ads='N2', T=300.0, ads_props=None, mat=dict(density=2.0, molar_mass=100.0), known_c='supercritical',
               inits=[INIT_A, ('absolute', 'bar', 'percent', None, 'mass', 'g', '°C')]),
@@ -85,6 +88,12 @@ def alphabet(space):
             ops.append(('convert_material', dict(basis_to=b, unit_to=u)))
     for u in [None, 'K', '°C', 'C', 'celsius', 'bogus']:
         ops.append(('convert_temperature', dict(unit_to=u)))
+    # the optional reporting flag changes nothing but the log
+    ops.append(('convert_pressure', dict(mode_to='relative', unit_to=None, verbose=True)))
+    ops.append(('convert_loading', dict(basis_to='mass', unit_to=space['lunits']['mass'][0], verbose=True)))
+    ops.append(('convert_material', dict(basis_to='volume', unit_to=space['munits']['volume'][0], verbose=True)))
+    ops.append(('convert_temperature', dict(unit_to='°C', verbose=True)))
+    ops.append(('convert', dict(pressure_mode='absolute', pressure_unit='Pa', loading_basis='mass', loading_unit='mg', material_basis='molar', material_unit='mmol', verbose=True)))
     ptar = [None, ('relative', None), ('absolute', 'Pa'), ('absolute', 'bogus')]
     mtar = [None, ('volume', 'cm3'), ('molar', 'mmol'), ('mass', 'bogus')]
     ltar = [None, ('mass', 'mg'), ('fraction', None), ('bogus', 'g')]
@@ -544,7 +553,7 @@ def run(ctx):
     outcomes = collections.Counter()
     depth = 0
     per_variant = {}
-    for vn in (['A', 'B', 'C', 'E']):
+    for vn in (['A', 'B', 'C', 'D', 'E']):
         # variants other than A always use the quotient alphabet (their reachable graphs are small)
         sn = space_name if vn == 'A' else 'quot'
         setup_variant(vn)
